@@ -1,11 +1,11 @@
 package sx
 
 import (
-	"sync/atomic"
 	"fmt"
 	"os"
 	"sort"
 	"strings"
+	"sync/atomic"
 	"time"
 
 	"golang.org/x/tools/go/ssa"
@@ -141,16 +141,16 @@ func (m *Machine) noteAssumption(s string) {
 }
 
 type Options struct {
-	Unwind     int
-	MaxPaths   int
-	TimeoutMs  int
-	FeasTimeoutMs int // timeout of feasibility queries (unknown = keep the path)
-	Solver     string // "z3" (default), "z3-new", "cvc5"
-	NLSolver   string // default "cvc5-int"
-	StrictCap  bool   // flag reslicing beyond len (within cap)
-	InitPkgs   []string
-	MaxSeconds int
-	Twin       bool // reachability twin: every vx.Assert becomes assert(false)
+	Unwind        int
+	MaxPaths      int
+	TimeoutMs     int
+	FeasTimeoutMs int    // timeout of feasibility queries (unknown = keep the path)
+	Solver        string // "z3" (default), "z3-new", "cvc5"
+	NLSolver      string // default "cvc5-int"
+	StrictCap     bool   // flag reslicing beyond len (within cap)
+	InitPkgs      []string
+	MaxSeconds    int
+	Twin          bool // reachability twin: every vx.Assert becomes assert(false)
 	// StopOnFinding ends the exploration at the first finding.
 	StopOnFinding bool
 	// Params are harness parameters (vx.Param).
@@ -260,7 +260,6 @@ func (e *Explorer) check(ts []*smt.Term, vals []*smt.Term, fast bool) (smt.Resul
 	}
 	return r, v
 }
-
 
 // ---- path aborts ----
 
